@@ -534,13 +534,26 @@ def sendid_ranges(rep, fb, rule='R06.12'):
             rep.fail(rule, '%s|_lastSendId = %s' % (f.q.split('::')[-1], rhs), locstr(n), 'the start value %s of the generated send ids is not defined by the writer' % rhs)
             continue
         df, top = d
-        # the value streamed after `#define M ` depends on the literal indices
-        defs = {d_['lid']: s_ for s_ in df.walk() if s_['k'] == 'DeclStmt' for d_ in s_.get('decls', []) if 'lid' in d_}
-        lids = {y['ref']['lid'] for y in sub(top) if y['k'] == 'DeclRefExpr' and 'lid' in y.get('ref', {})}
-        dep = any(y.get('callee', {}).get('q', '').endswith(('::indexForLiteral', '::getLiterals')) for y in sub(top))
-        for s_ in df.walk():
-            if s_['k'] in ('BinaryOperator', 'CompoundAssignOperator') and s_.get('op', '').endswith('=') and s_.get('op') not in ('==', '!=', '<=', '>=') and any(
-                    y.get('ref', {}).get('lid') in lids for y in sub(s_['c'][0])) and any(y.get('callee', {}).get('q', '').endswith(('::indexForLiteral', '::getLiterals')) for y in sub(s_['c'][1])):
-                dep = True
+        # the value streamed after `#define M ` depends on the literal indices: data dependence through the locals of the writer
+        SRC = ('::indexForLiteral', '::getLiterals')
+        tainted = set()
+        changed = True
+        while changed:
+            changed = False
+            def dirty(e_):
+                return any(y.get('callee', {}).get('q', '').endswith(SRC) or (y['k'] == 'DeclRefExpr' and y.get('ref', {}).get('lid') in tainted) for y in sub(e_))
+            for s_ in df.walk():
+                if s_['k'] == 'DeclStmt':
+                    for d_ in s_.get('decls', []):
+                        if 'lid' in d_ and d_['lid'] not in tainted and isinstance(d_.get('init'), dict) and dirty(d_['init']):
+                            tainted.add(d_['lid'])
+                            changed = True
+                if s_['k'] in ('BinaryOperator', 'CompoundAssignOperator', 'CXXOperatorCallExpr') and (s_.get('op') or '').endswith('=') and s_.get('op') not in ('==', '!=', '<=', '>=') and len(s_.get('c', [])) >= 2:
+                    lhs_, rhs_ = s_['c'][-2], s_['c'][-1]
+                    for y in sub(lhs_):
+                        if y['k'] == 'DeclRefExpr' and 'lid' in y.get('ref', {}) and y['ref']['lid'] not in tainted and dirty(rhs_):
+                            tainted.add(y['ref']['lid'])
+                            changed = True
+        dep = any(y.get('callee', {}).get('q', '').endswith(SRC) or (y['k'] == 'DeclRefExpr' and y.get('ref', {}).get('lid') in tainted) for y in sub(top))
         rep.check(dep, rule, '%s|_lastSendId = %s' % (f.q.split('::')[-1], rhs), locstr(n), 'the start value %s %s' % (
             rhs, 'is computed from the indices of the literals' if dep else 'does NOT depend on the indices of the literals'))
